@@ -7,7 +7,7 @@ H <call>|<call>|...            parse history on ONE instance.  <call> = S:<cps>:
                                NEW instance (no spaces, `|`, `:`), supplied by the harness.
    answer: model=<r#cursor|...> spec=<r#cursor|...>   (model: `runHistory` on the cursor model with a
            body that answers <fresh> on a clean cursor and DIRTY otherwise; spec: `freshRuns`)
-L v=<ver> [a=2] m=<match>;<match>;...  (a=2: the comment-aware `XPath2Parser.advance`)  <match> = <g><n>:<cps>, g∈{l,s,n,u,w} the regex group, n = 1 if
+L v=<ver> [a=2] m=<match>;<match>;...  (a=2: the comment-aware `XPath2Parser.advance`)  <match> = <g><n>:<cps>[:<end offset>], g∈{l,s,n,u,w} the regex group, n = 1 if
                                `name_pattern.match(text)`.
    answer: model=<sym>,<sym>,...;err=<err>;last=<sym> spec=<ok|bad>
 E ns=<pfx cps>~<uri cps>;... k=s code=<cps>  |  E ns=... k=q uri=<cps> p=<cps> l=<cps>      `xpath_error`
@@ -86,15 +86,16 @@ def answerH (rest : String) : String :=
 
 def parseMatch (s : String) : Option (Match × Bool) :=
   match s.splitOn ":" with
-  | [hd, cps] =>
+  | hd :: cps :: rest =>
+    let stop := (nat? (rest.headD "0")).getD 0
     let t := decodeStr cps
     let nm := hd.toList.getD 1 '0' == '1'
     match hd.toList.head? with
-    | some 'l' => some (⟨t, some t, none, none, none⟩, nm)
-    | some 's' => some (⟨t, none, some t, none, none⟩, nm)
-    | some 'n' => some (⟨t, none, none, some t, none⟩, nm)
-    | some 'u' => some (⟨t, none, none, none, some t⟩, nm)
-    | some 'w' => some (⟨t, none, none, none, none⟩, nm)
+    | some 'l' => some (⟨t, some t, none, none, none, stop⟩, nm)
+    | some 's' => some (⟨t, none, some t, none, none, stop⟩, nm)
+    | some 'n' => some (⟨t, none, none, some t, none, stop⟩, nm)
+    | some 'u' => some (⟨t, none, none, none, some t, stop⟩, nm)
+    | some 'w' => some (⟨t, none, none, none, none, stop⟩, nm)
     | _ => none
   | _ => none
 
@@ -116,8 +117,18 @@ def answerL (fs : List (String × String)) : String :=
       let o := pyOracles (fun s => nameSet.contains s)
       let start : Tok := ⟨"(start)", "symbol", "(start)"⟩
       let c0 : Cursor Tok Match := { Cursor.init start with tokens := matches_ }
+      -- a=2: the live XPath2Parser.advance; `src` = the source, `r` = re-tokenizations `p@<matches>` joined by `~`
+      -- (what tokenizer.finditer(source, p) returned in the harness, for every offset p just after a `:)`)
+      let src := (decodeStr (field fs "src")).toList
+      let retokP : List (Nat × List (Match × Bool)) := (((field fs "r").splitOn "~").filter (· ≠ "")).filterMap fun e =>
+        match e.splitOn "@" with
+        | [p, ms] => ((((ms.splitOn ";").filter (· ≠ "")).mapM parseMatch).map fun l => ((nat? p).getD 0, l))
+        | _ => none
+      let tokFrom : Nat → List Match := fun p => (((retokP.find? (·.1 == p)).map (·.2)).getD []).map (·.1)
+      let nameSet2 := nameSet ++ (retokP.flatMap fun pr => (pr.2.filter (·.2)).map (·.1.text))
+      let o := pyOracles (fun s => nameSet2.contains s)
       let (syms, err, last) :=
-        if field fs "a" == "2" then lexAll2 tb o (matches_.length + 2) c0   -- XPath2Parser.advance (comments)
+        if field fs "a" == "2" then lexAll3 tb o src tokFrom (src.length + matches_.length + 2) c0
         else lexAll tb o (matches_.length + 2) c0
       let okSyms := syms.all tb.has
       let okErr := match err with
